@@ -65,6 +65,7 @@ class Contract:
     exsures: list = field(default_factory=list) # (ExcName, Clause): must hold at every exit raising ExcName
     unknown_may_raise: bool = False             # calls of unknown callables may raise 'Exception'
     hints: list = field(default_factory=list)   # proved-then-assumed lemmas at function entry (ghost)
+    ranks: dict = field(default_factory=dict)   # tensor expression -> rank: its shape list is canonical on entry
 
 
 REGISTRY: dict[str, Contract] = {}
@@ -90,7 +91,7 @@ def _clauses(items, props=()):
 def contract(key, *, props=(), params=None, closure=None, result=None, requires=(), ensures=(),
              raises=(), may_raise=(), modifies=(), loops=None, mode='contract', self_cls=None,
              lets=None, trusted=False, note='', float_mode='R', covers=(), locals=None, exsures=(),
-             unknown_may_raise=False, hints=()):
+             unknown_may_raise=False, hints=(), ranks=None):
     props = tuple(props)
     lp = {}
     for k, v in (loops or {}).items():
@@ -110,7 +111,7 @@ def contract(key, *, props=(), params=None, closure=None, result=None, requires=
         self_cls=self_cls, lets=dict(lets or {}), trusted=trusted, note=note,
         float_mode=float_mode, covers=_clauses(covers, props), locals=dict(locals or {}),
         exsures=[(e, Clause(f'exsures:{e}:{l}', t, props)) for e, l, t in exsures],
-        unknown_may_raise=unknown_may_raise, hints=_clauses(hints, props),
+        unknown_may_raise=unknown_may_raise, hints=_clauses(hints, props), ranks=dict(ranks or {}),
     )
     REGISTRY[key] = c
     return c
@@ -139,14 +140,15 @@ class Lemma:
     hyps: list
     goal: str
     text: str = ''
+    theory: tuple = ()
 
 
 LEMMAS: list = []
 SPEC_DEFS: dict = {}     # name -> (param names, expression ast, text)
 
 
-def lemma(key, name, *, props=(), vars=None, hyps=(), goal='True', text=''):
-    LEMMAS.append(Lemma(key, name, tuple(props), dict(vars or {}), list(hyps), goal, text or goal))
+def lemma(key, name, *, props=(), vars=None, hyps=(), goal='True', text='', theory=()):
+    LEMMAS.append(Lemma(key, name, tuple(props), dict(vars or {}), list(hyps), goal, text or goal, tuple(theory)))
 
 
 def spec_def(name, params, text):
